@@ -14,6 +14,7 @@ find out whether it can end the loop (break / return) before E is reached.  Cond
 parameters fork the path.  Helper methods of the same class (self.m(...), Class.m(...)) are inlined.
 """
 import ast
+from .cfg import foreign_prepass
 import copy
 import itertools
 
@@ -157,6 +158,25 @@ class Interp:
             return out
         if isinstance(e, (ast.ListComp, ast.GeneratorExp)) and len(e.generators) == 1:
             return self._comp(st, e, depth)
+        if isinstance(e, (ast.ListComp, ast.GeneratorExp)) and len(e.generators) == 2 and isinstance(e.generators[0].target, ast.Name) \
+                and not e.generators[0].ifs and isinstance(e.generators[1].iter, ast.Name) and e.generators[1].iter.id == e.generators[0].target.id:
+            # [x for lst in (L1, L2, ...) for x in lst if c]: the comprehension over L1 + L2 + ...
+            out = []
+            for s, tv in self.ev(st, e.generators[0].iter, depth):
+                if tv[0] == 'tuple' and tv[1] and all(v[0] == 'list' for v in tv[1]):
+                    cnt = min(2, sum(s.objs[v[1]].count for v in tv[1]))
+                    ordered = set()
+                    if len(tv[1]) == 1:
+                        o1 = s.objs[tv[1][0][1]]
+                        ordered = set(o1.ordered_of) | ({o1.attr} if o1.attr is not None else set())
+                    cat = ('list', s.new_obj(count=cnt, ordered_of=ordered))
+                    inner = ast.copy_location(type(e)(elt=e.elt, generators=[e.generators[1]]), e)
+                    out += self._comp(s, inner, depth, src_value=cat)
+                elif tv[0] == 'tuple' and not tv[1]:
+                    out.append((s, ('list', s.new_obj(count=0, fresh=True))))
+                else:
+                    out.append((s, ('opaque', self.subst(s, e))))
+            return out
         if isinstance(e, ast.Call):
             f = e.func
             ftxt = ast.unparse(f)
@@ -202,10 +222,10 @@ class Interp:
             return ('list', s.new_obj(count=o.count, ordered_of=ordered))
         return ('opaque', None)
 
-    def _comp(self, st, e, depth):
+    def _comp(self, st, e, depth, src_value=None):
         gen = e.generators[0]
         out = []
-        for s, src in self.ev(st, gen.iter, depth):
+        for s, src in ([(st, src_value)] if src_value is not None else self.ev(st, gen.iter, depth)):
             if src[0] != 'list' or not isinstance(gen.target, ast.Name):
                 out.append((s, ('opaque', self.subst(s, e))))
                 continue
@@ -265,6 +285,20 @@ class Interp:
             if kw.arg:
                 argexprs[kw.arg] = kw.value
         outs = [(st, {})]
+        if fn.args.vararg is not None:
+            # *rest receives the remaining positional arguments as a tuple
+            extra = call.args[len(params):]
+            if any(isinstance(a, ast.Starred) for a in call.args):
+                st.log.append(('unrecognised', 'starred argument in a call of ' + ast.unparse(call.func), getattr(call, 'lineno', None)))
+                return [(st, ('opaque', None))]
+            nxt0 = []
+            for s, b in outs:
+                accs = [(s, [])]
+                for a in extra:
+                    accs = [(s2, acc + [v]) for s1, acc in accs for s2, v in self.ev(s1, a, depth)]
+                for s2, acc in accs:
+                    nxt0.append((s2, dict(b, **{fn.args.vararg.arg: ('tuple', acc)})))
+            outs = nxt0
         for p_ in params:
             nxt = []
             for s, b in outs:
@@ -284,7 +318,7 @@ class Interp:
             for k, v in b.items():
                 frame[k] = v
             s.vars.append(frame)
-            for s2, flow, val in self.block(s, fn.body, depth + 1):
+            for s2, flow, val in self.block(s, foreign_prepass(self.P, fn), depth + 1):
                 s2.vars.pop()
                 res.append((s2, val if flow == 'return' and val is not None else ('none',)))
         return res
@@ -813,7 +847,7 @@ def run(P, cls, method, list_attrs, ordered_attrs, match, origin, param_given=Tr
     for i, p_ in enumerate(params):
         st.vars[-1][p_] = ('param',) if i == 0 else ('opaque', None)
     res = []
-    for s, flow, val in it.block(st, fn.body):
+    for s, flow, val in it.block(st, foreign_prepass(P, fn)):
         res.append({
             'counts': {a: s.objs[s.attrs[a]].count for a in list_attrs},
             'writes': s.writes,
